@@ -62,6 +62,8 @@ def round_trip(ctx: Ctx, cfg: dict, pt: bytes, sid: str, ft: int) -> dict:
                 dc.reply_kind = "pubkey"
                 dc.now = pos_of(ft)
                 kw = dict(server="dc01", username=USER, password=refdc.PASSWORD, auth_protocol="ntlm")
+                if rng.random() < 0.6:
+                    kw["cache"] = cache      # the very cache that later holds the root key and decrypts (state carried between the calls)
                 with refdc.Network(dc):
                     blob = (dpapi_ng.ncrypt_protect_secret(pt, sid, **kw) if a_sync else asyncio.run(dpapi_ng.async_ncrypt_protect_secret(pt, sid, **kw)))
                 cache.load_key(**load)
